@@ -131,7 +131,7 @@ static void check_body(const char * body, int n, int maxidx) {
     char * expr = (char *) malloc((size_t) n + 2);       /* exact size: "(" body ")" */
     scpi_parameter_t param;
     rlistx_t nl = ref_numeric_list(body, n), cl = ref_channel_list(body, n);
-    int idx, cap;
+    int idx, cap, ci;
     char sig[96];
     expr[0] = '('; if (n) memcpy(expr + 1, body, (size_t) n); expr[n + 1] = ')';
     param.type = SCPI_TOKEN_PROGRAM_EXPRESSION; param.ptr = expr; param.len = n + 2;
@@ -190,8 +190,9 @@ static void check_body(const char * body, int n, int maxidx) {
             if (why) { snprintf(sig, sizeof sig, "c19/numeric/%s", why); mc_viol(sig, "body [%s] index %d: int result %d (%d..%d range %d) double result %d (%g..%g)", mc_e(body, (size_t) n), idx, (int) res, (int) vf, (int) vt, (int) isr, (int) res2, df, dt); break; }
         }
         /* ---- channel list ---- */
-        for (cap = 0; cap <= 4; cap++) {
-            int32_t * vf = (int32_t *) malloc(sizeof (int32_t) * (size_t) cap), * vt = (int32_t *) malloc(sizeof (int32_t) * (size_t) cap);
+        for (ci = -1; ci <= 4; ci++) {      /* -1: capacity 0 announced with NULL arrays (the "how many dimensions?" call of the examples) */
+            int nullarr = ci < 0;
+            int32_t * vf = (cap = ci < 0 ? 0 : ci, nullarr) ? NULL : (int32_t *) malloc(sizeof (int32_t) * (size_t) cap), * vt = nullarr ? NULL : (int32_t *) malloc(sizeof (int32_t) * (size_t) cap);
             scpi_bool_t isr = 2;
             size_t dims = 999;
             scpi_expr_result_t res;
